@@ -7,10 +7,11 @@
   R-6BIT         expansion c<<2 | c>>4 and reduction c>>2 have the same GF(2) normal form for the r, g and b channels
                  (from_63, from_ega_data / as_vec_63, to_ega_data), and to_ega_data writes all 16 palette slots.
 Not decided: palette text formats (regex import vs format! export)."""
+import re
 from analysis import facts as F
 from analysis import cg as CG
 from analysis import gf2
-from analysis.expr import ExprBuilder, show
+from analysis.expr import ExprBuilder, show, inline_helper
 
 MUT = ("push", "push_back", "insert", "remove", "swap_remove", "clear", "truncate", "drain", "retain", "resize", "pop", "swap", "sort", "sort_by",
        "dedup", "extend", "append", "splice", "split_off", "reverse", "rotate_left", "rotate_right", "fill", "iter_mut", "index_mut", "get_mut",
@@ -129,6 +130,58 @@ def run(chk):
                 chk.finding(key + "|appended-index", rule="R-INSERT-RET", where="%s:%s" % (b.file, b.line), fn=key,
                             what="the not-found path does not return len(colors)-1 evaluated after the push")
             continue
+        # appended, other form: len(colors) read before the push (the index the new element is about to get)
+        if x[0] == "len" and field_chain(x[1])[1][-1:] == ["colors"] and pushes:
+            lens = [cb for cb, t in b.calls() if (t["callee"].get("resolved") or "").endswith("::len") and b.dominates(cb, pushes[0]) and cb != pushes[0]]
+            ok = bool(lens) and b.dominates(pushes[0], bi)
+            appended_ok = ok
+            chk.obligation(ok)
+            if not ok:
+                chk.finding(key + "|appended-index", rule="R-INSERT-RET", where="%s:%s" % (b.file, b.line), fn=key,
+                            what="the not-found path returns len(colors) that is not read just before the push")
+            continue
+        # found, other form: colors.iter().position(|c| <compares r, g, b>)
+        if x[0] == "field" and x[2] == "0" and x[1][0] == "downcast" and x[1][1][0] == "call" and x[1][1][1].endswith("::position"):
+            pc = x[1][1]
+            it = show(pc[2][0]) if pc[2] else ""
+            cl = pc[2][1] if len(pc[2]) > 1 else None
+            fields = set()
+            if cl is not None and cl[0] == "agg" and str(cl[1]).startswith("closure:"):
+                cb_ = f.bodies.get(str(cl[1])[len("closure:"):])
+                if cb_ is not None:
+                    fields = compared_fields_of_eq(f, cb_)
+                    # a captured `&color.r` is field k of the closure environment: compare by the captured field's name
+                    caps = {str(i): (field_chain(c_)[1] or [None])[-1] for i, c_ in enumerate(cl[2])}
+                    ceb = ExprBuilder(cb_)
+                    for _, _, s_ in cb_.stmts():
+                        if s_["k"] == "assign" and s_["rv"]["k"] == "bin" and s_["rv"]["op"] in ("Eq", "Ne"):
+                            names = []
+                            for side in ("a", "b"):
+                                base_, fl_ = field_chain(ceb.operand(s_["rv"][side]))
+                                nm = fl_[-1] if fl_ else None
+                                if nm in caps and base_[0] == "var" and base_[1] == 1:
+                                    nm = caps[nm]
+                                names.append(nm)
+                            if names[0] is not None and names[0] == names[1]:
+                                fields.add(names[0])
+                            else:
+                                fields.add("?%s/%s" % (names[0], names[1]))
+                    for _, ct in cb_.calls():
+                        cp = ct["callee"].get("resolved") or ""
+                        if (cp.endswith("::eq") or cp.endswith("::ne")) and cp in f.bodies:
+                            fields |= compared_fields_of_eq(f, f.bodies[cp])
+            # the iterator walks self.colors from the front
+            src_ok = False
+            for _, ct in b.calls():
+                if (ct["callee"].get("resolved") or "").endswith("<impl [T]>::iter") and re.search(r"\bself\.colors\b", show(eb.operand(ct["args"][0]))):
+                    src_ok = True
+            ok = fields == {"r", "g", "b"} and src_ok and "rev(" not in it and "skip(" not in it
+            found_ok = ok
+            chk.obligation(ok)
+            if not ok:
+                chk.finding(key + "|found-compare|%s" % ",".join(sorted(fields)), rule="R-INSERT-RET", where="%s:%s" % (b.file, b.line), fn=key,
+                            what="the found path (position over %s) compares the field set {%s}, expected exactly {r, g, b} over colors.iter()" % (it[:40], ", ".join(sorted(fields))))
+            continue
         # found: the loop index
         idx = x
         if idx[0] == "field" and idx[2] == "0" and "next" in show(idx):
@@ -201,6 +254,7 @@ def run(chk):
                 return ("c", 8)
             return None
         nz = gf2.Normalizer(lambda v: None, {}, inp)
+        nz.inline = lambda ce: inline_helper(f, ce)
         nf = nz.nf(e, 8)
         return nf, srcs, nz.fail
     c = gf2.var_bits("c", 8)
@@ -289,7 +343,24 @@ def run(chk):
             if s["k"] == "assign" and s["rv"]["k"] == "agg" and s["rv"].get("adt") in ("std::ops::Range", "std::ops::RangeInclusive"):
                 ops = [eb.operand(o) for o in s["rv"]["ops"]]
                 ranges.append((s["rv"]["adt"], ops, s["line"]))
-        ok = any(ops[0] == ("const", 0) and ((adt.endswith("Range") and ops[1] == ("const", 16)) or (adt.endswith("RangeInclusive") and ops[1] == ("const", 15)))
+        def sixteen(e):
+            """16, or min(palette length, 16) in either order (16 as a literal or as the length of a 16-entry constant table)"""
+            if e == ("const", 16):
+                return True
+            if e[0] == "len":
+                x = e[1]
+                while x[0] in ("ref", "deref", "cast"):
+                    x = x[1] if x[0] != "cast" else x[2]
+                if x[0] in ("def", "static"):
+                    t_ = f.const_table(x[1])
+                    return isinstance(t_, list) and len(t_) == 16
+                return False
+            if e[0] == "call" and e[1].split("::")[-1] == "min" and len(e[2]) == 2:
+                a_, b_ = e[2]
+                pal = lambda z: (z[0] == "len" or (z[0] == "call" and z[1].endswith("::len"))) and "palette" in show(z)
+                return (pal(a_) and sixteen(b_)) or (pal(b_) and sixteen(a_))
+            return False
+        ok = any(ops[0] == ("const", 0) and ((adt.endswith("Range") and sixteen(ops[1])) or (adt.endswith("RangeInclusive") and ops[1] == ("const", 15)))
                  for adt, ops, line in ranges)
         chk.obligation(ok)
         if not ok:
